@@ -41,10 +41,11 @@ type Base struct {
 type Case struct {
 	Base    Base
 	Changes []string
+	Used    bool // the envelope object signed a valid request before
 }
 
 func (c Case) desc() string {
-	return fmt.Sprintf("%s remote=%v key=%s scheme=%s changes=%v", mtName(c.Base.MT), c.Base.Remote, c.Base.Kind, c.Base.Scheme, c.Changes)
+	return fmt.Sprintf("%s remote=%v key=%s scheme=%s changes=%v used-object=%v", mtName(c.Base.MT), c.Base.Remote, c.Base.Kind, c.Base.Scheme, c.Changes, c.Used)
 }
 
 func mtName(mt string) string {
@@ -124,6 +125,12 @@ func chainFor(kind, defect string) *pki.Chain {
 		}
 	case "ca-expired-at-signing-time":
 		ca.NotAfter = time.Date(2020, 1, 1, 0, 0, 0, 0, time.UTC)
+	case "root-expired-at-signing-time":
+		root.NotAfter = time.Date(2020, 1, 1, 0, 0, 0, 0, time.UTC)
+	case "root-not-yet-valid-at-signing-time":
+		root.NotBefore = time.Date(2022, 1, 1, 0, 0, 0, 0, time.UTC)
+	case "ca-not-yet-valid-at-signing-time":
+		ca.NotBefore = time.Date(2022, 1, 1, 0, 0, 0, 0, time.UTC)
 	default:
 		panic("unknown defect " + defect)
 	}
@@ -137,7 +144,8 @@ func chainFor(kind, defect string) *pki.Chain {
 }
 
 var chainDefects = []string{"leaf-ca", "leaf-ku-absent", "leaf-ku-noncritical", "leaf-ku-certsign", "leaf-ku-keyencipherment", "leaf-eku-serverauth", "leaf-eku-timestamping",
-	"ca-no-certsign", "ca-not-ca", "ca-pathlen-0-above-intermediate", "root-missing", "intermediate-missing", "order-swapped", "wrong-issuer-key", "duplicate-root", "ca-expired-at-signing-time"}
+	"ca-no-certsign", "ca-not-ca", "ca-pathlen-0-above-intermediate", "root-missing", "intermediate-missing", "order-swapped", "wrong-issuer-key", "duplicate-root", "ca-expired-at-signing-time",
+	"root-expired-at-signing-time", "root-not-yet-valid-at-signing-time", "ca-not-yet-valid-at-signing-time"}
 
 func (c *ctx) setChain(ch *pki.Chain) {
 	c.chain = ch
@@ -361,6 +369,17 @@ func execute(r *core.Run, c *Case) {
 		r.Inconclusive(err.Error())
 		return
 	}
+	if c.Used {
+		// the object has already signed (and read back) a valid request with the
+		// same kind of key
+		good := &Case{Base: c.Base}
+		core.Guard(func() {
+			if _, e := env.Sign(build(good).req); e == nil {
+				env.Content()
+				r.Count("on-a-used-object", 1)
+			}
+		})
+	}
 	var out []byte
 	var serr error
 	p := core.Guard(func() { out, serr = env.Sign(x.req) })
@@ -504,7 +523,7 @@ func localSignerCases(r *core.Run) {
 }
 
 func run(r *core.Run) int {
-	r.Rule = "valid base requests (2 formats x local/remote signer x 6 key specs x 2 schemes) x ~80 invalidating changes: singles for every base, ordered pairs for the P-256 bases (thorough: all EC bases, RSA sampled); controls (no change, times on the inclusive validity bounds, expiry one second later, sub-second times that stay ordered after truncation, plain attributes) must succeed. " +
+	r.Rule = "valid base requests (2 formats x local/remote signer x 6 key specs x 2 schemes) x ~80 invalidating changes: singles for every base (each also on an envelope object that has signed a valid request before), ordered pairs for the P-256 bases (thorough: all EC bases, RSA sampled); controls (no change, times on the inclusive validity bounds, expiry one second later, sub-second times that stay ordered after truncation, plain attributes) must succeed. " +
 		"non-trivial = the request carries at least one invalidating change; distinct by descriptor"
 	r.Assume("an invalidating change applied last stays invalidating whatever was applied before it; the one pair of changes that repair each other (signer key and chain leaf both swapped to the same other key) is excluded")
 	var cases []*Case
@@ -521,6 +540,7 @@ func run(r *core.Run) int {
 		for _, ch := range changes {
 			if ch.applies(b) {
 				cases = append(cases, &Case{Base: b, Changes: []string{ch.name}})
+				cases = append(cases, &Case{Base: b, Changes: []string{ch.name}, Used: true})
 			}
 		}
 	}
@@ -563,7 +583,8 @@ func run(r *core.Run) int {
 	return r.Finish(r.Pick(2000, 20000),
 		core.Require{Counter: "control-success", Why: "no control request succeeded"},
 		core.Require{Counter: "rejected", Why: "no invalid request was rejected"},
-		core.Require{Counter: "local-signer-rejected", Why: "no foreign key was rejected by NewLocalSigner"})
+		core.Require{Counter: "local-signer-rejected", Why: "no foreign key was rejected by NewLocalSigner"},
+		core.Require{Counter: "on-a-used-object", Why: "no invalid request on an object that had signed before"})
 }
 
 func replay(r *core.Run, path string) int {
